@@ -1,4 +1,5 @@
 import HidVerif.Hid.Parser
+import HidVerif.Proofs.ParseSound
 /-!
 # C06 — flavour and context rules are enforced on every program
 
@@ -8,8 +9,10 @@ values Python's `IntFlag` arithmetic gives them; the theorems below show (i) the
 agrees with Python on every valid context value, (ii) what each derived context permits equals
 the documented permission table.  The parser model (`Hid/Parser.lean`) uses exactly these
 definitions and is tied to the implementation by the `parse` suite (trees, error class and
-position).  Soundness of whole parses w.r.t. an independent context checker is validated by
-exhaustive placement enumeration (not yet proved).
+position).  Soundness of whole parses is proved (`accepted_programs_respect_the_rules`, by
+induction on the fuel of every parser function, then on the derivation of the context
+discipline); completeness ("every program that respects the rules is accepted") is validated by
+exhaustive placement enumeration against an independent permission table.
 -/
 namespace HidVerif.Props.C06
 open HidVerif.Gen HidVerif.Hid.Parse HidVerif.Hid.Lex
@@ -66,5 +69,48 @@ theorem global_permissions : has 0 "FUNC" = false ∧ has 0 "YOU" = false ∧ ha
 /-- break/continue: the loop flag is set exactly by loop bodies and kept by every nested block -/
 theorem loop_flag : ∀ c ∈ reachable, has (ctxWhileBody c) "LOOP" = true ∧ has (ctxForBody c) "LOOP" = true ∧
     has (ctxIfBody c) "LOOP" = has c "LOOP" ∧ has (ctxPreemptBody c) "LOOP" = has c "LOOP" := by decide
+
+/-! ## Soundness of whole parses, for every program -/
+
+/-- `Proofs/ParseSound.lean` uses the same list of reachable contexts -/
+theorem reachable_same : reachableCtx = reachable := rfl
+
+/-- **C06 (only-if direction), for every source text**: if the parser model accepts, then in
+every function body and every global initialiser of the resulting program
+* a call of a defeat function and a `preempt` block occur only inside a try body or a defeat
+  function (`mayCall _ .defeat`, `mayPreempt`),
+* a `try`, a `??` and a call of a you-function occur only in a you-function, never inside a try
+  body, never inside an operand of `??` (`mayTry`, `mayCall _ .you`),
+* both operands of `??` contain only ordinary calls (`inSpec`),
+* `break` and `continue` occur only inside a loop body (`inLoop`),
+* a global initialiser contains no call at all (`Kind.global`).
+`RulesS` / `RulesE` state exactly this, position by position, in the vocabulary of the
+documentation (`Pos`); no context number appears in the statement. -/
+theorem accepted_programs_respect_the_rules (src : List Line) (p : PProgram) (h : parse src = .ok p) :
+    (∀ f ∈ p.funcs, RulesS (startPos f.fl) f.body) ∧
+    (∀ v ∈ p.vars, RulesS ⟨.global, false, false, false⟩ v) :=
+  accepted_respects_rules src p h
+
+/-- what the rules say in four typical positions (non-vacuity of the vocabulary): a defeat call is
+allowed in a try body of a you-function and in a defeat function, not directly in a you-function
+and not in an operand of `??`; a you-call is not allowed inside a try body; nothing may be called
+from a global initialiser -/
+example : mayCall ⟨.you, true, false, false⟩ .defeat = true ∧ mayCall ⟨.defeat, false, false, false⟩ .defeat = true ∧
+    mayCall ⟨.you, false, false, false⟩ .defeat = false ∧ mayCall ⟨.you, false, false, true⟩ .defeat = false ∧
+    mayCall ⟨.you, true, false, false⟩ .you = false ∧ mayCall ⟨.global, false, false, false⟩ .none = false ∧
+    mayTry ⟨.you, false, true, false⟩ = true ∧ mayTry ⟨.you, true, false, false⟩ = false ∧ mayTry ⟨.ordinary, false, false, false⟩ = false := by
+  decide
+
+/-- the hypothesis of the theorem is satisfiable, and the parser model does reject what the rules
+forbid: a defeat call in a try body and a you-call in the handler are accepted; the same defeat
+call directly in the you-function, a you-call inside the try body and a `break` outside a loop
+are not -/
+example :
+    let line (s : String) : List Line := [s.toList.map Char.toNat]
+    (match parse (line "empty @is_you() { try { !f(1); } undo { @g(); } }") with | .ok p => p.funcs.length == 1 | .error _ => false) = true ∧
+    (match parse (line "empty @is_you() { !f(1); }") with | .ok _ => false | .error _ => true) = true ∧
+    (match parse (line "empty @is_you() { try { @g(); } undo { } }") with | .ok _ => false | .error _ => true) = true ∧
+    (match parse (line "empty f() { break; }") with | .ok _ => false | .error _ => true) = true := by
+  refine ⟨by decide +kernel, by decide +kernel, by decide +kernel, by decide +kernel⟩
 
 end HidVerif.Props.C06
